@@ -153,11 +153,11 @@ def read_dict(inf):
         k = read_string(inf)
         vtype = int.from_bytes(inf.read(DICT_TYPE_LEN), BYTE_ORDER)
         if vtype == DICT_INT_TYPE:
-            d[k] = read_int(inf)
+            d[k] = read_int_neg(inf)
         elif vtype == DICT_STR_TYPE:
             d[k] = read_string(inf)
         elif vtype == DICT_INT_PAIR_TYPE:
-            d[k] = (read_int(inf), read_int(inf))
+            d[k] = (read_int_neg(inf), read_int_neg(inf))
         else:
             raise ValueError("Serialized dictionary contains unsupported value")
     return d
